@@ -196,4 +196,24 @@ def problems(env, cfg, tier):
                       targets=[Env.reset, type(env.generator).__call__, type(env.generator)._make_random_move],
                       note=f"configured generator: {env.generator.num_random_moves} random moves from the solved puzzle; "
                            "choice(p=valid moves) replaced by its contract stub")
-    return [step, reset, reset_real]
+    # the scan body of the generator (one random move) keeps the generator's post-condition: together with the solved
+    # start (checked concretely) this is the inductive argument for any num_random_moves; no sampler inside a loop here,
+    # so counterexamples replay with pinned outcomes
+    gen = env.generator
+
+    def move_req(key, puzzle, pos):
+        return phys(n, puzzle, pos)
+
+    def move_ens(key, puzzle, pos):
+        p2, pos2 = gen._make_random_move(key, puzzle, pos)
+        out = {"C09.generator_start_is_the_solved_puzzle": (gen._solved_puzzle == goal(n)).all(),
+               "C09.generator_move_is_one_step": jnp.abs(pos2 - pos).sum() == 1,
+               "canary.generator_move_always_goes_up": pos2[0] == pos[0] - 1}
+        for k, v in phys(n, p2, pos2).items():
+            out["C09.generator_move_keeps_" + k] = v
+        return out
+
+    gen_move = dict(title=f"SlidingTilePuzzle.generator._make_random_move@{cfg}",
+                    args=(state.key, state.puzzle, jnp.asarray(state.empty_tile_position)), requires=move_req, ensures=move_ens,
+                    targets=[type(gen)._make_random_move, type(gen)._swap_tiles])
+    return [step, reset, reset_real, gen_move]
